@@ -148,12 +148,46 @@ def run(tier):
                         {"kind": kind, "bytecode": j["src"], "src": progs[i]["src"]})
         elif r["status"] == "err":
             refused += 1
+    # ---- the seeded (de)serialisation underneath (SeSeed / DeSeed): the value of every program (closures with inner
+    # functions included) is serialised, loaded into the same and into a fresh VM, the loading thread collects, and the
+    # loaded value must still behave like the original (functions are applied to fixed arguments)
+    vprogs = [p for p in progs if p["o"].get("k") != "extra"]
+    if tier == "quick" and len(vprogs) > 1500:
+        vprogs = rnd.sample(vprogs, 1500)
+    more, _r = langlib.corpus("c12fn", 5 if tier == "quick" else 6, langlib.FOCUS["calls"], roots=("F1", "F2"), sample=600 if tier == "quick" else 10000, rng_seed=seed + 3)
+    rs.append(_r)
+    vprogs = vprogs + [{"src": langlib.render(o["p"], prim=True), "o": o} for o in more]
+    vjobs = [{"id": i, "src": p["src"] if p["src"].startswith("let { Bool") else langlib.render(p["o"]["p"], prim=True), "mode": "valueser", "prelude": False} for i, p in enumerate(vprogs)]
+    vres = vlib.run_pool(["lang"], vjobs, workers=14, job_timeout=60)
+    vloaded = vfun = 0
+    for j in vjobs:
+        r = vres.get(j["id"])
+        if r is None:
+            continue
+        rep = {"valueser": True, "src": j["src"]}
+        if r["status"] in ("panic", "crash", "hang"):
+            V.violation("valueser:%s:%s" % (r["status"], r.get("panic_at") or r["msg"][:60]), "serialising / loading the value of a program %s the host: %s\n%s" % (r["status"], r["msg"][-300:], j["src"]), rep)
+            continue
+        v = json.loads(r["value"]) if r.get("value") else {}
+        if v.get("status") != "ok":
+            continue
+        for ld in v["loads"]:
+            if "error" in ld:
+                continue          # values that refer to host functions are refused with an error: fine
+            vloaded += 1
+            if "call(" in v["direct"]:
+                vfun += 1
+            for when in ("before_gc", "after_gc"):
+                if ld[when] != v["direct"]:
+                    V.violation("valueser:%s:%s-differs" % (ld["vm"], when.replace("_", "-")),
+                                "a value of type %s loaded into the %s VM gives %s %s, the original gives %s\n%s" % (v["type"], ld["vm"], ld[when], "after the loading thread collected" if when == "after_gc" else "right after loading", v["direct"], j["src"]), rep)
+                    break
     rc = V.finish()
     vlib.write_evidence(PID, tier, "model_checking", {
         "states": sum(r.distinct for r in rs), "transitions": sum(r.generated for r in rs),
         "traces_validated_against_impl": n, "samples": [{"src": p["src"]} for p in progs[:: max(1, n // 3)][:3]],
         "evaluations": len(res) + len(res2) + len(fres), "distinct_nontrivial": n, "agreed": agree,
-        "damaged_loads": len(fres), "damaged_refused_with_error": refused,
+        "value_round_trips": vloaded, "value_round_trips_of_functions": vfun, "damaged_loads": len(fres), "damaged_refused_with_error": refused,
         "rule": "Lang.tla programs, each run directly, through compile_to_bytecode + Precompiled in the same VM, and loaded into another VM; plus truncations at structural boundaries, deleted keys and renamed string references of the serialised modules (crash / hang = violation, error = fine)",
         "corpora": stats, "exhaustive": False, "known_findings_hit": {k: v[1] for k, v in V.known_hits.items()},
     }, ["serde_json is the serialisation format exercised", "a damaged module that still loads is not judged (the property only demands that undefined references and truncations do not crash)"],
@@ -163,6 +197,14 @@ def run(tier):
 
 def replay(path):
     d = json.load(open(path))["replay"]
+    if d.get("valueser"):
+        r = vlib.run_pool(["lang"], [{"id": 0, "src": d["src"], "mode": "valueser", "prelude": False}], workers=1, job_timeout=60)[0]
+        print(d["src"]); print(json.dumps(r)[:2000])
+        v = json.loads(r["value"]) if r.get("status") == "ok" and r.get("value") else {}
+        bad = r.get("status") != "ok" or any("error" not in ld and (ld["before_gc"] != v["direct"] or ld["after_gc"] != v["direct"]) for ld in v.get("loads", []))
+        if bad:
+            print("VIOLATION property=%s replay=%s" % (PID, path)); return 1
+        return 0
     if "bytecode" in d and isinstance(d["bytecode"], str):
         r = vlib.run_pool(["lang"], [{"id": 0, "src": d["bytecode"], "mode": "load"}], workers=1, job_timeout=20)[0]
         print(json.dumps(r)[:800])
